@@ -5,10 +5,15 @@ Full statement (not proved as one theorem): for every configuration with `WF.cfg
 finite list of inputs (key events for any code, ticks), `runK` never returns a `Crash`.
 What is proved here are the crash sites one by one — each either shown unreachable for all states
 (after the `fix:` commits) or exhibited with a witness — plus totality statements for the decision
-functions. The whole-model statement is checked differentially (C02 correspondence + crash oracle).
+functions, and, for the layered fragment of C04, the whole statement at the layout level
+(`frag04_never_crashes`: `Layout::event` / `Layout::tick` never crash, for every history within the
+bounds of `layered_refines`; helper lemmas in Lemmas/NoCrash04.lean).  The whole-model statement is
+checked differentially (C02 correspondence + crash oracle).
 -/
 import KVerif.Model.CfgWF
 import KVerif.Lemmas.TapHold
+import KVerif.Lemmas.NoCrash04
+import KVerif.Props.C04
 namespace KVerif.C02
 open KVerif.L
 
@@ -161,5 +166,188 @@ theorem input_code_767_counterexample (s : Layout) (l : Nat) (rest : List Nat)
   obtain ⟨tbl, ht⟩ := hget
   refine ⟨"layers[l][x][y]", ?_⟩
   simp [Layout.resolveCoord, LCfg.layerAction, hr, hc, ht]
+
+/-! ### The layered fragment never crashes (the unconditional half of C04's `layered_refines`) -/
+
+section Layered
+open KVerif.C04 KVerif.Spec.Layered
+
+/-- every press of the history lies inside the layer table (decidable) -/
+def InTable (c : LCfg) (ins : List In) : Prop :=
+  (ins.all fun i => match i with | .ev e => evOK c e | .tick => true) = true
+
+instance (c : LCfg) (ins : List In) : Decidable (InTable c ins) := by unfold InTable; exact inferInstance
+
+/-- **frag04_never_crashes** (full, on the fragment).  On the layered fragment of C04 the model of
+`Layout::event` / `Layout::tick` never takes a crash branch — no index out of bounds, no layer-stack
+overflow, no unresolved transparent action, no exhausted recursion budget — for every history, any
+order and timing of presses, releases and ticks, physically consistent or not, that stays within the
+bounds `layered_refines` already assumes (`Safe`: fewer than 32 events pending when one arrives, at
+most 10 layers held).  Hypotheses beyond those of `layered_refines` (each a decidable predicate):
+
+* `DepthOK`: every configured action has fuel cost ≤ `COST_MAX` = 300, where the cost of a `multi` is
+  2 + max over its members of (position + 1 + cost of the member) and 2 for everything else
+  (`nesting_bound_suffices`: `multi` nested ≤ `d` deep with ≤ `w` members each is enough whenever
+  `d * (w + 2) + 2 ≤ 300`, e.g. 16 × 16 or 1 × 296).  The model recurses on fuel (`FUEL` = 4000, and
+  its `multi` loop also consumes one unit per member; through `Trans` resolution the budget is spent
+  at most once more per held layer, hence 300 ≈ 4000 / 13); the real `do_action` recurses on the
+  call stack once per nesting level and loops over the members.  On this fragment `parse_multi`
+  splices a `multi` written directly inside a `multi` into its parent, so parsed actions nest one
+  level deep and only their length is unbounded — harmless in Rust, but a flat `multi` of 4000
+  members exhausts the *model's* budget (a model artefact, stated here rather than hidden).
+  Across the whole grammar **kanata's parser does not bound the nesting** (`multi` inside
+  `fork` / `tap-hold` / `one-shot` / `tap-dance` / `switch` inside `multi` …): an accepted
+  configuration nested deeply enough exhausts the stack.  That risk is outside this theorem; the C02
+  crash oracle probes it separately (deep-nesting configurations run on the real code).
+* `RangeOK` (configuration) and `InRange` (state): there is a layer; every `layer-while-held` target,
+  every held layer and the base layer exist — otherwise `self.layers[layer]` in `resolve_coord`
+  panics (index out of bounds); kanata's parser resolves layer names, so targets are in range, and
+  `layer-switch` is range-checked at run time.  The defsrc row holds no transparent / use-defsrc item —
+  otherwise a press that falls through every layer reaches `unreachable!("Trans action should have
+  been resolved earlier")`, or `Src` re-enters itself without bound; kanata fills the row with plain
+  key codes (`CfgWF`: "defsrc entry is not a plain key").
+* `InTable` (history) and the pending part of `InRange` (state): every press has row < `rows` and
+  column < `cols` (2 × 767 in kanata) — otherwise `self.layers[layer][x][y]` / `self.src_keys[y]`
+  in `resolve_coord` panic (see `input_code_767_counterexample`: the `assert!`s there use `<=`).
+  Releases need no bound.  The event loop only forwards codes in `MAPPED_KEYS` (C11). -/
+theorem frag04_never_crashes : ∀ (ins : List In) (s : Layout), CfgFrag s.cfg → DepthOK s.cfg →
+    RangeOK s.cfg → Inert s → InRange s → Safe (km s) (abs s) ins → InTable s.cfg ins →
+    ∃ t, runM s ins = .ok t := by
+  intro ins
+  induction ins with
+  | nil => intro s _ _ _ _ _ _ _; exact ⟨[], rfl⟩
+  | cons i rest ih =>
+    intro s hc hd hr hi hin hs ht
+    unfold InTable at ht
+    simp only [List.all_cons, Bool.and_eq_true] at ht
+    cases i with
+    | ev e =>
+      simp only [Safe] at hs
+      obtain ⟨s1, e1, e2, e3, e4⟩ := event_input hi e hs.1
+      have hin1 : InRange s1 := by
+        unfold InRange; rw [e3.cfg, e4]; exact input_inRange hin ht.1
+      obtain ⟨t, h⟩ := ih s1 (e3.cfg ▸ hc) (e3.cfg ▸ hd) (e3.cfg ▸ hr) e2 hin1
+        (by rw [e3.km, e4]; exact hs.2) (by rw [e3.cfg]; exact ht.2)
+      exact ⟨t, by simp only [runM, e1, h]⟩
+    | tick =>
+      simp only [Safe] at hs
+      obtain ⟨⟨s1, cu⟩, h1⟩ := tick_total hc hd hr hi hin hs.1
+      obtain ⟨t1, t2, _, t4⟩ := tick_step hc hi hs.1 s1 cu h1
+      have hin1 : InRange s1 := by
+        unfold InRange; rw [t2.cfg, t4]; exact step_inRange (km s) hr hin
+      obtain ⟨t, h⟩ := ih s1 (t2.cfg ▸ hc) (t2.cfg ▸ hd) (t2.cfg ▸ hr) t1 hin1
+        (by rw [t2.km, t4]; exact hs.2) (by rw [t2.cfg]; exact ht.2)
+      exact ⟨s1.keycodes :: t, by simp only [runM, h1, h]⟩
+
+/-- **frag04_runs_as_layered** (full, on the fragment): the run exists *and* is the trace of the
+layered-keymap machine — `layered_refines` without its "if the layout processes the history". -/
+theorem frag04_runs_as_layered (ins : List In) (s : Layout) (hc : CfgFrag s.cfg) (hd : DepthOK s.cfg)
+    (hr : RangeOK s.cfg) (hi : Inert s) (hin : InRange s) (hs : Safe (km s) (abs s) ins)
+    (ht : InTable s.cfg ins) : runM s ins = .ok (runS (km s) (abs s) ins) := by
+  obtain ⟨t, h⟩ := frag04_never_crashes ins s hc hd hr hi hin hs ht
+  rw [h, layered_refines ins s hc hi hs t h]
+
+/-- a freshly created layout is in range (so, with `init_inert`, the theorems apply from start-up) -/
+theorem init_inRange (cfg : LCfg) (tv2 dfl qth : Bool) (osd : Nat) (hr : RangeOK cfg) :
+    InRange { cfg := cfg, transV2 := tv2, delegateToFirstLayer := dfl, quickTapHoldTimeout := qth,
+              oneshot := { pauseInputProcessingDelay := osd } } :=
+  InRangeT.pack ⟨hr.unpack.pos, by intro x hx; simp [C04.abs] at hx⟩ (by intro e he; simp [C04.abs] at he)
+
+/-! Non-vacuity: the three-layer configuration of C04 (every kind of action of the fragment, a
+transparent item nested in a `multi`, use-defsrc), a state with a key down and a press pending, and
+a history with presses, releases and idle ticks (the pending press holds layer 2 and sends 42; the
+next one is use-defsrc on layer 2; the third finds its key through a transparent item nested in a
+`multi`, which also releases 42). -/
+
+def sampleState : Layout :=
+  { cfg := sampleCfg, states := [.normalKey 7 (0, 7) 0], queue := [⟨.press (0, 48), 0⟩] }
+
+def sampleHist : List In :=
+  [.ev (.press (0, 30)), .tick, .tick, .ev (.press (0, 46)), .tick, .ev (.release (0, 48)), .tick,
+   .ev (.press (0, 46)), .ev (.release (0, 30)), .tick, .tick, .tick]
+
+theorem sampleCfg_frag : CfgFrag sampleCfg := by
+  refine ⟨?_, ?_⟩
+  · intro tbl ht e he
+    simp only [sampleCfg, List.mem_cons, List.mem_nil_iff, or_false] at ht
+    rcases ht with rfl | rfl | rfl <;>
+      (simp only [List.mem_cons, List.mem_nil_iff, or_false] at he
+       rcases he with rfl | rfl | rfl <;> simp [Frag, FragL])
+  · intro e he
+    simp only [sampleCfg, List.mem_cons, List.mem_nil_iff, or_false] at he
+    rcases he with rfl | rfl | rfl <;> simp [Frag]
+
+theorem sampleState_inert : Inert sampleState :=
+  ⟨rfl, rfl, rfl, rfl, rfl, rfl, rfl, by
+    intro st h
+    simp only [sampleState, List.mem_cons, List.mem_nil_iff, or_false] at h
+    subst h; exact Or.inl rfl⟩
+
+example : NestingOK 1 296 sampleCfg := by decide
+example : DepthOK sampleCfg := nesting_bound_suffices (d := 1) (w := 296) (by decide) (by decide)
+example : DepthOK sampleCfg := nesting_bound_suffices (d := 16) (w := 16) (by decide) (by decide)
+example : RangeOK sampleCfg := by decide
+example : InRange sampleState := by decide
+example : InTable sampleCfg sampleHist := by decide
+theorem sampleHist_safe : Safe (km sampleState) (C04.abs sampleState) sampleHist := by
+  simp only [sampleHist, Safe]
+  decide
+
+/-- the theorem applied: the sample run exists and is the layered machine's trace -/
+example : runM sampleState sampleHist = .ok (runS (km sampleState) (C04.abs sampleState) sampleHist) :=
+  frag04_runs_as_layered sampleHist sampleState sampleCfg_frag (by decide) (by decide) sampleState_inert
+    (by decide) sampleHist_safe (by decide)
+
+/-- and the trace is not trivial -/
+example : runS (km sampleState) (C04.abs sampleState) sampleHist =
+    [[7, 42], [7, 42, 30], [7, 30, 45], [7, 30, 45], [7, 30, 45, 45], [7, 45, 45], [7, 45, 45]] := by decide
+
+/-! Each index hypothesis is needed: drop it and the model takes the crash branch named in the
+statement of `frag04_never_crashes`.  None of the three witnesses is a configuration kanata's parser
+produces (layer names are resolved, the defsrc row is filled with plain key codes). -/
+
+/-- the crash outcome of a run, if any -/
+def crashOf {α} : Except Crash α → Option Crash
+  | .error c => some c
+  | .ok _ => none
+
+/-- `layer-while-held` on a layer that does not exist: the next press indexes `self.layers[5]` -/
+def badLayerCfg : LCfg :=
+  { layers := [[((0, 30), .layer 5)]], srcKeys := [(30, .keyCode 30), (31, .keyCode 31)] }
+
+theorem layer_target_out_of_range_counterexample :
+    DepthOK badLayerCfg ∧ ¬ RangeOK badLayerCfg ∧
+    crashOf (runM { cfg := badLayerCfg } [.ev (.press (0, 30)), .tick, .ev (.press (0, 31)), .tick])
+      = some (.indexOOB "layers[layer]") := by
+  refine ⟨by decide, by decide, by decide +kernel⟩
+
+/-- a transparent item in the defsrc row: a press that falls through every layer reaches
+`unreachable!("Trans action should have been resolved earlier")` -/
+def transDefsrcCfg : LCfg := { layers := [[]], srcKeys := [(30, .trans)] }
+
+theorem trans_in_defsrc_counterexample :
+    DepthOK transDefsrcCfg ∧ ¬ RangeOK transDefsrcCfg ∧
+    crashOf (runM { cfg := transDefsrcCfg } [.ev (.press (0, 30)), .tick]) = some .transUnresolved := by
+  refine ⟨by decide, by decide, by decide +kernel⟩
+
+/-- use-defsrc in the defsrc row re-enters itself: whatever the budget, it runs out (the real code
+would recurse until the stack is exhausted) -/
+theorem src_in_defsrc_diverges : ∀ (fuel : Nat) (s : Layout) (c : Coord) (d : Nat) (ls : List Nat),
+    s.cfg.srcKey c.2 = .src → c.2 < s.cfg.cols →
+    doAction fuel s .src c d false ls = .error .fuelOut ∧
+    dispatch fuel s .src c d false ls = .error .fuelOut := by
+  intro fuel
+  induction fuel with
+  | zero => intro s c d ls _ _; exact ⟨rfl, rfl⟩
+  | succ fuel ih =>
+    intro s c d ls h hc
+    have hp : (prelude s c).cfg = s.cfg := (prelude_same s c).cfg
+    refine ⟨?_, ?_⟩
+    · simp only [doAction]
+      exact (ih (prelude s c) c d ls (hp ▸ h) (hp ▸ hc)).2
+    · simp only [dispatch]
+      rw [if_neg (by omega), h, (ih s c d [] h hc).1]
+
+end Layered
 
 end KVerif.C02
